@@ -208,7 +208,7 @@ impl Run {
         let (n_real, n_scripted) = sizes.unwrap_or((n_real, n_scripted));
         let n = n_real + n_scripted;
         let pp = ProtocolParameters { k: 3 + rnd::below(rng, 3), m: 60 + rnd::below(rng, 60), phi_f: 0.95 };
-        let cfg = SimConfig { data_dir: dir.join("aggregator"), protocol_parameters: pp.clone(), tx_step: 30, blocks_step: 15 };
+        let cfg = SimConfig { data_dir: dir.join("aggregator"), protocol_parameters: pp.clone(), tx_step: 30, blocks_step: 15, types: mon_agg::sim::all_types() };
         let start_epoch = 2 + rnd::below(rng, 3);
         let start = TimePoint {
             epoch: Epoch(start_epoch),
